@@ -55,7 +55,7 @@ class F25(Directed):
 
 
 class F24(Directed):
-    """(repaired, ac47ae9) inbound QoS 2, PUBREC delivered by a write that ends with try_again: the PUBREL must still be answered"""
+    """inbound QoS 2, PUBREC delivered by a write that ends with try_again: the broker's PUBREL is never answered"""
     def run(self, nsteps):
         self.begin(); self.reconnect(1, {}); self.api_recv()
         self.bpub(2); self.rx_all()                       # client: PUBREC in a write
